@@ -158,7 +158,6 @@ PRIMITIVES = {
         ("class:lbry.wallet.ledger.Ledger", "main-net ledger constants (genesis hash/bits, target timespan, checkpoints reference)"),
     ],
     "C08": [
-        ("lbry.wallet.claim_proofs.verify_proof", "legacy claim-trie proof checker: what is hashed per level (the refusals are C08-D4/VALID)"),
         ("lbry.wallet.claim_proofs.get_hash_for_outpoint", "leaf hash of an outpoint"),
         ("lbry.wallet.database.Database.select_transactions", "transaction query"),
         ("lbry.wallet.database.Database.get_transaction", "stored transaction lookup"),
